@@ -1,5 +1,5 @@
 # properties that have a check (tools/props/<id>.py); MANIFEST.json is generated from these
-PROPS = ["C01", "C02", "C04", "C05", "C06", "C07", "C08", "C09", "C10", "C11", "C12", "C13", "C14", "C15", "C16", "C17", "C18", "C20"]
+PROPS = ["C01", "C02", "C03", "C04", "C05", "C06", "C07", "C08", "C09", "C10", "C11", "C12", "C13", "C14", "C15", "C16", "C17", "C18", "C19", "C20"]
 
 # properties not claimed (id -> one-line reason); kept in MANIFEST.json's not_applicable
 NOT_CLAIMED = {}
